@@ -11,12 +11,13 @@ Definition wrapi32 (z : Z) : Z := (z + 2147483648) mod 4294967296 - 2147483648.
 (* the operations a request-processing skeleton is translated over: S is the state of one request *)
 Record pipe_ops (S : Type) : Type := {
   op_msg : S -> msg;                   (* the m_msg the members m->... are read from *)
+  op_cred : string -> S -> Z;          (* an integer member c->... of the request's struct munge_cred, by its C name *)
   op_stage : string -> S -> Z * S;     (* a stage function, by its C name: its return value and the new state *)
   op_reset : S -> S;                   (* m_msg_reset (m) *)
   op_send : S -> Z * S;                (* m_msg_send (m, ...): its munge_err_t value and the new state *)
   op_unplay : S -> S                   (* replay_remove (c) *)
 }.
-Arguments op_msg {S}. Arguments op_stage {S}. Arguments op_reset {S}. Arguments op_send {S}. Arguments op_unplay {S}.
+Arguments op_msg {S}. Arguments op_cred {S}. Arguments op_stage {S}. Arguments op_reset {S}. Arguments op_send {S}. Arguments op_unplay {S}.
 
 Definition src_enc_validate_msg (cf : conf) (m : msg) : N * msg :=
   match (
@@ -278,37 +279,39 @@ Definition src_enc_check_retry (cf : conf) (m : msg) : N * msg :=
     end
   end.
 
-Definition src_dec_validate_replay (cf : conf) (ins : Z) (errno_ : Z) (m : msg) : N * msg :=
+Definition src_dec_validate_replay (cf : conf) (ins : Z) (errno_ : Z) (c_is_replay_new : Z) (m : msg) : N * msg * Z :=
   let l_rc := 0 in
+  let l_c__is_replay_new := c_is_replay_new in
   let l_rc := ins in
   match (
     if (l_rc =? 0) then
-      inl (0%N, m)
+      let l_c__is_replay_new := 1 in
+      inl (0%N, m, l_c__is_replay_new)
     else
-      inr (m, (l_rc, tt))
+      inr (m, (l_rc, l_c__is_replay_new, tt))
   ) with
   | inl r => r
-  | inr (m, (l_rc, tt)) =>
+  | inr (m, (l_rc, l_c__is_replay_new, tt)) =>
     match (
       if (l_rc >? 0) then
         if (((negb ((b2z (cf_socket_retry cf)) =? 0)) && ((Z.of_N (m_retry m)) >? 0)) && ((Z.of_N (m_retry m)) <=? (Z.of_N c_retry_attempts))) then
-          inl (0%N, m)
+          inl (0%N, m, l_c__is_replay_new)
         else
-          inl (e_cred_replayed, m)
+          inl (e_cred_replayed, m, l_c__is_replay_new)
       else
-        inr (m, (l_rc, tt))
+        inr (m, (l_rc, l_c__is_replay_new, tt))
     ) with
     | inl r => r
-    | inr (m, (l_rc, tt)) =>
+    | inr (m, (l_rc, l_c__is_replay_new, tt)) =>
       match (
         if (errno_ =? 12) then
-          inl (e_no_memory, m)
+          inl (e_no_memory, m, l_c__is_replay_new)
         else
-          inr (m, (l_rc, tt))
+          inr (m, (l_rc, l_c__is_replay_new, tt))
       ) with
       | inl r => r
-      | inr (m, (l_rc, tt)) =>
-        (e_snafu, m)
+      | inr (m, (l_rc, l_c__is_replay_new, tt)) =>
+        (e_snafu, m, l_c__is_replay_new)
       end
     end
   end.
@@ -394,7 +397,7 @@ Definition src_dec_process_msg {S : Type} (ops : pipe_ops S) (m : S) : Z * S :=
         let '(v15, m) := op_send ops m in
         if (negb (v15 =? (Z.of_N e_success))) then
           match (
-            if (l_rc =? 0) then
+            if ((l_rc =? 0) && (negb ((op_cred ops "is_replay_new"%string m) =? 0))) then
               let m := op_unplay ops m in
               inr (m, (l_c, l_rc, tt))
             else
